@@ -722,6 +722,8 @@ func (v *VecDense) MulVec(a Matrix, b Vector) {
 		}
 	}
 
+	// b is not a *VecDense, so none of the paths above checked a.
+	v.asDense().checkOverlapMatrix(aU)
 	for i := 0; i < r; i++ {
 		var f float64
 		for j := 0; j < c; j++ {
